@@ -8,7 +8,7 @@ Emitted (every name below is used by Model/Regions.v, so the theorems are about 
   tree_scale level, tree_shift level      RegionCoreTree.__init__ : self.scale, self.shift
   add_core_out_of_range x y p base_x base_y scale
                                           the test of the first `if` of add_core (raise ValueError)
-  subregion_index x y shift               add_core : `subregion = ...`
+  subregion_index x y shift               add_core : `subregion = int(...)` (the expression inside int())
   add_core_not_selected selected_p subregion
                                           add_core : the `elif not self.locally_selected[p] & (1 << subregion)`
   add_core_select selected_p subregion    add_core : `self.locally_selected[p] |= 1 << subregion`
@@ -252,7 +252,14 @@ def main():
     sub = only([s for s in ast.walk(add) if isinstance(s, ast.Assign) and len(s.targets) == 1
                 and isinstance(s.targets[0], ast.Name) and s.targets[0].id == "subregion"],
                "assignment to subregion")
-    out.append(emit_expr("subregion_index", ["x", "y", "shift"], sub.value, "Z",
+    # `subregion = int(<integer expression>)` (fix 2baef63: the coordinates may be fixed-width numpy scalars; the
+    # index is made a Python int before `1 << subregion`).  int() of an integer is the identity: the expression
+    # inside is what is translated; without the wrapper the narrow-dtype defect is back, so it is required.
+    v = sub.value
+    if not (isinstance(v, ast.Call) and isinstance(v.func, ast.Name) and v.func.id == "int" and len(v.args) == 1
+            and not v.keywords and not isinstance(v.args[0], ast.Starred)):
+        raise py2v.Unsupported("add_core: `subregion = int(...)` expected, found `%s`" % ast.unparse(sub))
+    out.append(emit_expr("subregion_index", ["x", "y", "shift"], v.args[0], "Z",
                          "RegionCoreTree.add_core subregion"))
     # if self.level == 3: ... elif not self.locally_selected[p] & (1 << subregion): ...
     branch = only([s for s in body if isinstance(s, ast.If) and ast.unparse(s.test) == "self.level == 3"],
